@@ -382,6 +382,25 @@ pub fn run(ctx: &Ctx) -> Report {
             // (quick tier: the program and the table are inspected, not executed - a policy with
             // tens of thousands of matchers takes the runtime model half a minute)
             let v = if ctx.tier == Tier::Quick { judge_tags(&e) } else { judge(&e) };
+            // the same with one, two or three printers registered first (printers take one number,
+            // matchers two: the counter then reaches the range with the other parity)
+            if tail.len() == 1 {
+                for first in 1..=3usize {
+                    let mut e2 = E::A(Act::FPrint("early0".into()));
+                    for k in 1..first {
+                        e2 = E::and(e2, E::A(Act::FPrint0(format!("early{k}"))));
+                    }
+                    e2 = E::and(E::or(e2, E::T(Tst::True)), balanced_or(&names));
+                    for a in [Act::FPrint("late1".into()), Act::Print0, Act::FPrint("late2".into())] {
+                        e2 = E::and(e2, E::A(a));
+                    }
+                    let v2 = judge_tags(&e2);
+                    stm.record(&v2, stable_hash(&(m, first, "parity")), true, || json!({"kind": "matchers-before", "matchers": m, "printers_first": first}));
+                    if let Verdict::Fail(_) = v2 {
+                        stm.failures.last_mut().map(|f| f.case = case_json(&e2));
+                    }
+                }
+            }
             stm.record(&v, stable_hash(&(m, &tail)), true, || json!({"kind": "matchers-before", "matchers": m, "actions": format!("{tail:?}")}));
             if let Verdict::Fail(_) = v {
                 stm.failures.last_mut().map(|f| f.case = json!({"kind": "matchers-before", "matchers": m, "tail": tail.len()}));
@@ -405,6 +424,7 @@ pub fn run(ctx: &Ctx) -> Report {
     // requests that a registry keyed by a concatenation of their parts would take for one
     let mut twins = crate::combo::concat_twin_trees();
     twins.extend(crate::combo::escape_twin_trees());
+    twins.extend(crate::combo::long_prefix_twin_trees());
     let tw = run_shards(16, |shard| {
         let mut st = Stats::new();
         for (i, t) in twins.iter().enumerate().filter(|(i, _)| i % 16 == shard) {
